@@ -48,6 +48,8 @@ func runInventory(name string, P *Program, S *Specs) []*Obligation {
 		return invStructLiteralSites(P, "hamt._UnixFSHAMTShard", []string{"hamt.NewUnixFSHAMTShard"})
 	case "reify-tables":
 		return invReifyTables(P)
+	case "once-closures":
+		return invOnceClosures(P, S)
 	case "lstat-not-stat":
 		return invLstat(P)
 	}
@@ -392,4 +394,51 @@ func invLstat(P *Program) []*Obligation {
 		}
 	}
 	return []*Obligation{invOb("lstat-not-stat", "the importer inspects entries with Lstat (never Stat), so symbolic links are not followed", lstat >= 1 && stat == 0, fmt.Sprintf("Lstat calls %d, Stat calls %d", lstat, stat))}
+}
+
+// invOnceClosures: every function marked once_guarded is a closure that is only ever handed to
+// (*sync.Once).Do, so it runs at most once and every Do call returns after it completed.
+func invOnceClosures(P *Program, S *Specs) []*Obligation {
+	var out []*Obligation
+	for name, c := range S.Contracts {
+		if !c.OnceGuarded {
+			continue
+		}
+		f := P.Funcs[name]
+		if f == nil {
+			out = append(out, invOb("once-closures:"+name, "once_guarded function exists", false, "not found (contract drift)"))
+			continue
+		}
+		ok, uses, detail := true, 0, ""
+		for _, g := range P.AllFuncs {
+			for _, b := range g.Blocks {
+				for _, ins := range b.Instrs {
+					for _, op := range ins.Operands(nil) {
+						if *op == nil {
+							continue
+						}
+						mc, isMC := (*op).(*ssa.MakeClosure)
+						if (!isMC || mc.Fn != f) && *op != ssa.Value(f) {
+							continue
+						}
+						if _, self := ins.(*ssa.MakeClosure); self {
+							continue
+						}
+						uses++
+						ci, isCall := ins.(ssa.CallInstruction)
+						if !isCall || calleeName(ci.Common()) != "(*sync.Once).Do" {
+							ok = false
+							detail = "used in " + fnName(g) + " other than as the argument of (*sync.Once).Do"
+						}
+					}
+				}
+			}
+		}
+		if uses == 0 {
+			ok, detail = false, "never used"
+		}
+		out = append(out, invOb("once-closures:"+name, "the closure runs only inside sync.Once.Do", ok, detail))
+	}
+	sort.Slice(out, func(i, j int) bool { return out[i].Name < out[j].Name })
+	return out
 }
